@@ -51,8 +51,8 @@ def prop_catalogue(tier):
         add("element_iv", 2, [S] * ln, D=2 if ln < 4 else 3)
     for n in (2, 3, 4) if q else (2, 3, 4, 5):
         add("element_lic", n, [S], D=2)
-    for n in (3, 4) if q else (3, 4, 5):
-        add("element_liv", n, [], D=2)
+    for n in (3, 4, 5) if q else (3, 4, 5, 6):
+        add("element_liv", n, [], D=2 if n < 5 else 1)
     for n in (1, 2, 3) if q else (1, 2, 3, 4):
         add("exactly_eq", n, [S, sr(-1, n + 1)], D=2)
         add("exactly_true", n, [sr(-1, n + 1)], D=1, base=0)
@@ -77,8 +77,8 @@ def prop_catalogue(tier):
     for n in (2, 4, 6) if q else (2, 4, 6, 8):
         add("lexicographic_leq", n, [], D=2 if n <= 4 else 1)
     for alg in ("max_eq", "max_leq", "min_eq", "min_geq"):
-        for n in (2, 3) if q else (2, 3, 4):
-            add(alg, n, [], D=2)
+        for n in (2, 3, 4) if q else (2, 3, 4, 5):
+            add(alg, n, [], D=2 if n < 5 else 1)
     for alg in ("no_sub_cycle", "scc"):
         for n in (2, 3) if q else (2, 3, 4):
             add(alg, n, [], D=n - 1, base=0)
